@@ -123,6 +123,12 @@ func judgeC14(hi *Hist) []*Violation {
 		}
 	}
 	kind := map[int]string{1: "context cancel", 2: "Shutdown"}[hi.Sc.InjectKind]
+	// an Add racing with the cancellation returns a bar or ErrDone, never (nil, nil)
+	for _, op := range hi.Ops {
+		if op.Op.K == h.OpAdd && op.Ret >= 0 && (op.RS == "nil,nil" || strings.Contains(op.RS, "nonnil")) {
+			add("add-result", "%s at step %d: Add returned %s", kind, hi.Sc.InjectAt, op.RS)
+		}
+	}
 	// where did the cancellation land? (reach probes for the evidence)
 	{
 		at := hi.InjectAt
